@@ -9,8 +9,10 @@ import (
 	"sort"
 	"strings"
 	"sync"
+	"sync/atomic"
 	"testing"
 	"time"
+	"verifharness/wire"
 
 	tls "github.com/refraction-networking/utls"
 	"verifharness/mon"
@@ -32,7 +34,7 @@ func c26Call(id int64, f func()) { f() }
 
 // C26 — Concurrent use of a UConn is race-free, deadlock-free and consistent.
 func TestC26(t *testing.T) {
-	r := mon.New("C26", "per run one reader, one writer, 2-6 concurrent Handshake/HandshakeContext callers with their own contexts, Close/CloseWrite and cancellations at PRNG-chosen moments, random delays at every Read/Write of the transport (real suspension points) and at the uTLS handshake yield points (hook H10); scenarios: normal server, server that stalls (no I/O deadline: cancellation is the only way out), cancellation after return, benign runs without any I/O deadline (explicit handshake callers, or only Read and Write starting the handshake implicitly) in which every call must return successfully and the echo must complete, and a TLS 1.2 server that sends a HelloRequest in the middle of the echo (the reader rebuilds the ClientHello and starts a renegotiation handshake while writer and callers are active). Oracle: zero race-detector reports; every call returns; each handshake caller returns nil only if the connection reports HandshakeComplete, or the shared handshake error, or its own context's error (then the connection is closed); cancelling a context after its call returned leaves the connection usable. distinct = interleaving signatures (order of call returns and tap events)")
+	r := mon.New("C26", "per run one reader, one writer, 2-6 concurrent Handshake/HandshakeContext callers with their own contexts, Close/CloseWrite and cancellations at PRNG-chosen moments, random delays at every Read/Write of the transport (real suspension points) and at the uTLS handshake yield points (hook H10); scenarios: normal server, server that stalls (no I/O deadline: cancellation is the only way out), cancellation after return, benign runs without any I/O deadline (explicit handshake callers, or only Read and Write starting the handshake implicitly) in which every call must return successfully and the echo must complete, a CloseWrite next to a stream of Writes with the close_notify record held back on the transport (nothing may follow it on the wire, later Writes fail), and a TLS 1.2 server that sends a HelloRequest in the middle of the echo (the reader rebuilds the ClientHello and starts a renegotiation handshake while writer and callers are active). Oracle: zero race-detector reports; every call returns; each handshake caller returns nil only if the connection reports HandshakeComplete, or the shared handshake error, or its own context's error (then the connection is closed); cancelling a context after its call returned leaves the connection usable. distinct = interleaving signatures (order of call returns and tap events)")
 	defer r.Finish(t)
 	n := mon.Pick(500, 60000)
 	ids := []tls.ClientHelloID{tls.HelloChrome_133, tls.HelloFirefox_120, tls.HelloGolang, tls.HelloChrome_102, tls.HelloIOS_14, tls.HelloRandomizedALPN}
@@ -248,6 +250,29 @@ func TestC26(t *testing.T) {
 				})
 				wd := time.Duration(rg.Intn(3000)) * time.Microsecond
 				launch("writer", func() (error, error) { time.Sleep(wd); _, e := u.Write(payload); return e, nil })
+			} else if scenario == "close-race" {
+				// several writes in a row, so that Close / CloseWrite lands next to (before, between,
+				// inside) one of them whatever the scheduler does
+				launch("writer", func() (error, error) {
+					step := len(payload)/8 + 1
+					for off := 0; off < len(payload); off += step {
+						if _, e := u.Write(payload[off:min(off+step, len(payload))]); e != nil {
+							return e, nil
+						}
+					}
+					return nil, nil
+				})
+				launch("reader", func() (error, error) {
+					buf := make([]byte, 1024)
+					for readGot.Len() < len(payload) {
+						n, err := u.Read(buf)
+						readGot.Write(buf[:n])
+						if err != nil {
+							return err, nil
+						}
+					}
+					return nil, nil
+				})
 			} else if scenario != "stalled" {
 				launch("writer", func() (error, error) { _, e := u.Write(payload); return e, nil })
 				launch("reader", func() (error, error) {
@@ -468,6 +493,92 @@ func TestC26(t *testing.T) {
 		}(i)
 	}
 	wgAll.Wait()
+	// CloseWrite next to a stream of Writes, with the close_notify record held back on the
+	// transport for a moment (a real suspension point): nothing may follow close_notify on the
+	// wire, and a Write that starts after CloseWrite returned must fail.  TLS 1.2, where the
+	// alert record is recognisable on the wire.
+	for i := 0; i < mon.Pick(60, 1500); i++ {
+		rg := Sub("C26closewrite", i)
+		id := ids[rg.Intn(len(ids))]
+		c, s, tap := peer.Pipe()
+		dl := time.Now().Add(20 * time.Second)
+		c.SetDeadline(dl)
+		s.SetDeadline(dl)
+		hold := time.Duration(500+rg.Intn(3000)) * time.Microsecond
+		tap.BeforeWrite = func(dir string, p []byte) {
+			if dir == "c2s" && len(p) > 0 && p[0] == 21 {
+				time.Sleep(hold)
+			}
+		}
+		scfg := peer.ServerConfig()
+		scfg.MaxVersion = tls.VersionTLS12
+		srv := tls.Server(s, scfg)
+		go func() {
+			if srv.Handshake() == nil {
+				io.Copy(io.Discard, srv)
+			}
+		}()
+		ccfg := peer.ClientConfig("example.test")
+		ccfg.OmitEmptyPsk = true
+		u := tls.UClient(c, ccfg, id)
+		if err := u.Handshake(); err != nil {
+			c.Close()
+			s.Close()
+			continue
+		}
+		var closeReturned atomic.Bool
+		var lateOK atomic.Int64
+		var wg sync.WaitGroup
+		wg.Add(2)
+		go func() {
+			defer wg.Done()
+			for k := 0; k < 400; k++ {
+				after := closeReturned.Load()
+				_, err := u.Write([]byte("0123456789abcdef0123456789abcdef"))
+				if err == nil && after {
+					lateOK.Add(1)
+				}
+				if err != nil && k > 390 {
+					return
+				}
+			}
+		}()
+		go func() {
+			defer wg.Done()
+			time.Sleep(time.Duration(rg.Intn(300)) * time.Microsecond)
+			u.CloseWrite()
+			closeReturned.Store(true)
+		}()
+		wg.Wait()
+		c2s, _ := tap.Snapshot()
+		recs, _, _ := wire.SplitRecords(c2s)
+		alertAt, dataAfter := -1, 0
+		for k, rec := range recs {
+			if rec.Type == 21 && alertAt < 0 {
+				alertAt = k
+			} else if alertAt >= 0 && rec.Type == 23 {
+				dataAfter++
+			}
+		}
+		sig := map[string]string{"scenario": "closewrite-held"}
+		rep := map[string]any{"case": i, "id": id.Str(), "records": len(recs), "alert_at": alertAt}
+		if dataAfter > 0 {
+			sig["kind"] = "application_data_after_close_notify"
+			r.Violation(sig, fmt.Sprintf("%s: %d application-data record(s) went to the transport after the close_notify alert", id.Str(), dataAfter), rep)
+		}
+		if n := lateOK.Load(); n > 0 {
+			sig["kind"] = "write_succeeded_after_closewrite_returned"
+			r.Violation(sig, fmt.Sprintf("%s: %d Write call(s) that started after CloseWrite had returned reported success", id.Str(), n), rep)
+		}
+		if alertAt >= 0 {
+			r.Count("closewrite_held_runs", 1)
+		}
+		u.Close()
+		c.Close()
+		s.Close()
+		r.Case(fmt.Sprintf("closewrite-held|%v", alertAt >= 0), true)
+	}
+	r.Floor("closewrite_held_runs", int64(mon.Pick(30, 700)))
 	r.Count("distinct_interleavings", int64(len(sigs)))
 	r.Floor("handshakes_completed", int64(n/8))
 	r.Floor("hello_requests_sent", int64(n/15))
